@@ -167,28 +167,29 @@ def composeNew (a b : C) : Except Err C :=
   | (.error e, _) => .error e
   | (.ok _, d0) => composeLoop a d0 b.simps
 
-/-- `compose(c, d)` into an existing target: `self.copy(d)` first -/
-def composeInto (a b d : C) : Except Err Unit × C :=
+/-- `compose(c, d)` into an existing target: `self.copy(d)` first. The loop is not atomic on the target: what
+was added (and which shared simplices had their attributes merged) before an exception stays. Returns the
+names whose attributes were merged. -/
+def composeIntoLoop (a : C) : C → List Name → List (Simp Name) → Except Err Unit × C × List Name
+  | d, merged, [] => (.ok (), d, merged)
+  | d, merged, s :: rest =>
+    let q := simplexWithBasis a s.basis
+    if a.contains s.name then
+      match q with
+      | none => (.error .value, d, merged)
+      | some n => if n = s.name then composeIntoLoop a d (merged ++ [s.name]) rest else (.error .value, d, merged)
+    else
+      match q with
+      | some _ => (.error .value, d, merged)
+      | none =>
+        match d.addSimplex s.faces s.name with
+        | .ok d' => composeIntoLoop a d' merged rest
+        | .error e => (.error e, d, merged)
+
+def composeInto (a b d : C) : Except Err Unit × C × List Name :=
   match copyInto a d with
-  | (.error e, d') => (.error e, d')
-  | (.ok _, d0) =>
-    -- the loop is not atomic on the target: keep what was added before the exception
-    let rec go : C → List (Simp Name) → Except Err Unit × C
-      | d, [] => (.ok (), d)
-      | d, s :: rest =>
-        let q := simplexWithBasis a s.basis
-        if a.contains s.name then
-          match q with
-          | none => (.error .value, d)
-          | some n => if n = s.name then go d rest else (.error .value, d)
-        else
-          match q with
-          | some _ => (.error .value, d)
-          | none =>
-            match d.addSimplex s.faces s.name with
-            | .ok d' => go d' rest
-            | .error e => (.error e, d)
-    go d0 b.simps
+  | (.error e, d') => (.error e, d', [])
+  | (.ok _, d0) => composeIntoLoop a d0 [] b.simps
 
 /-! ### flag complex wrappers -/
 
